@@ -15,6 +15,7 @@ import (
 	"encoding/json"
 	"flag"
 	"fmt"
+	"math"
 	"os"
 
 	"github.com/prometheus/common/model"
@@ -52,10 +53,21 @@ type Op struct {
 	Opts *Opts           `json:"opts,omitempty"`
 	Inst json.RawMessage `json:"inst,omitempty"` // Create: instrument record; Rec: instrument id
 	AS   int             `json:"as,omitempty"`
-	V    float64         `json:"v,omitempty"`
+	V    fnum            `json:"v,omitempty"`
 
 	inst Inst
 	id   int
+}
+
+// fnum is a measurement value; non-finite values (a gauge may record +Inf) are written as text in samples.
+type fnum float64
+
+func (f fnum) MarshalJSON() ([]byte, error) {
+	v := float64(f)
+	if math.IsInf(v, 0) || math.IsNaN(v) {
+		return json.Marshal(fmtF(v))
+	}
+	return json.Marshal(v)
 }
 
 func (o *Op) decode() error {
@@ -72,6 +84,7 @@ type Scenario struct {
 	ID       string
 	Res      []Attr
 	ASes     [][]Attr
+	Scopes   []ScopeRec
 	Ops      []Op
 	MaxScale int
 }
@@ -98,7 +111,12 @@ func runScenario(sc *Scenario, tw *vh.TraceWriter, res *vh.Result) {
 				return
 			}
 			wd.maxScale = sc.MaxScale
-			tw.Emit(map[string]any{"ev": "New", "sc": sc.ID, "opts": op.Opts, "res": sc.Res, "ases": sc.ASes, "bounds": boundsText})
+			if sc.Scopes == nil {
+				sc.Scopes = []ScopeRec{}
+			}
+			wd.scopeRecs = sc.Scopes
+			tw.Emit(map[string]any{"ev": "New", "sc": sc.ID, "opts": op.Opts, "res": sc.Res, "ases": sc.ASes, "bounds": boundsText,
+				"scopes": sc.Scopes})
 		case "Create":
 			if err := wd.create(op.inst); err != nil {
 				// the property quantifies over valid instruments: an SDK rejection is a generator bug
@@ -107,7 +125,7 @@ func runScenario(sc *Scenario, tw *vh.TraceWriter, res *vh.Result) {
 			}
 			created = append(created, op.inst)
 		case "Rec":
-			wd.record(op.id, op.AS, sc.ASes[op.AS-1], op.V)
+			wd.record(op.id, op.AS, sc.ASes[op.AS-1], float64(op.V))
 			res.Evaluations++
 		case "Scrape":
 			streams, err := wd.sdkView()
@@ -170,8 +188,9 @@ type edge struct {
 }
 
 type consts struct {
-	Res  []Attr   `json:"res"`
-	ASes [][]Attr `json:"ases"`
+	Res    []Attr     `json:"res"`
+	ASes   [][]Attr   `json:"ases"`
+	Scopes []ScopeRec `json:"scopes"`
 }
 
 func replay(args []string) {
@@ -215,7 +234,7 @@ func replay(args []string) {
 		for i := range ops {
 			vh.Must(ops[i].decode())
 		}
-		sc := &Scenario{ID: fmt.Sprintf("%s%d", *tag, n), Res: c.Res, ASes: c.ASes, Ops: ops, MaxScale: *expoMaxScale}
+		sc := &Scenario{ID: fmt.Sprintf("%s%d", *tag, n), Res: c.Res, ASes: c.ASes, Scopes: c.Scopes, Ops: ops, MaxScale: *expoMaxScale}
 		runScenario(sc, tw, res)
 		if res.Executed <= 2 {
 			res.Sample(map[string]any{"scenario": sc.ID, "ops": ops})
